@@ -400,6 +400,9 @@ func c02Check(r *vkit.Run, in c02Input) {
 			}
 			for _, k := range refKeys {
 				v := ref[k]
+				if k == "msg" {
+					continue // a Docker label named like the line's own label: which of the two shows is stated nowhere
+				}
 				if hv, present := have[k]; !present || hv != v {
 					fail(fmt.Sprintf("line %q carries %s=%q, its container has %s=%q", line, k, have[k], k, v), "")
 					return
@@ -472,7 +475,7 @@ func c02Classify(in c02Input, got, want []string) string {
 
 func c02Variants() []c02Ctr {
 	var out []c02Ctr
-	for _, ls := range []map[string]string{{}, {"k": "v"}, {"k": ""}, {"com.x/y": "v"}, {"k": "v", "com.x/y": "v"}, {"k": "", "com.x/y": "v"}, {"container.role": "v", "k.d": "v", "--zone": "z"}} {
+	for _, ls := range []map[string]string{{}, {"k": "v"}, {"k": ""}, {"com.x/y": "v"}, {"k": "v", "com.x/y": "v"}, {"k": "", "com.x/y": "v"}, {"container.role": "v", "k.d": "v", "--zone": "z"}, {"msg": "x", "zz": "v", "a0": "v"}} {
 		for _, st := range []string{"running", "exited"} {
 			for _, img := range []string{"i1", "i2"} {
 				for _, n := range []string{"/a", "/b", "/ab"} {
@@ -533,6 +536,13 @@ func c02Run(r *vkit.Run) {
 	times := []int64{0, 1 * sec, 1500000000, 2999999999}
 	idx := 0
 	one := func(in c02Input) {
+		if strings.Contains(in.Shape, "msg-filter") {
+			for _, c := range in.Ctrs {
+				if _, has := c.Labels["msg"]; has {
+					return // a filter on msg over a container whose Docker label is named msg: which value it sees is stated nowhere
+				}
+			}
+		}
 		idx++
 		if !r.Mine(idx) || r.Stop() {
 			return
@@ -588,6 +598,10 @@ func c02Run(r *vkit.Run) {
 			}
 			one(c02Input{Ctrs: inv, Matchers: []c02Matcher{{Label: l, Op: "!=", Value: "v"}, {Label: "container_state", Op: "=", Value: "running"}}, Shape: "log", StartNS: 0, EndNS: 3 * sec, Dots: true})
 		}
+		// windows that lie ahead of the evaluator's clock (year 2200) are asked for like any other
+		for _, sh := range []string{"log", "count", "count-offset", "instant-count", "instant-log"} {
+			one(c02Input{Ctrs: inv, Matchers: []c02Matcher{all}, Shape: sh, StartNS: 7258118400 * sec, EndNS: 7258118402*sec + 500000000})
+		}
 		for _, lim := range []int{1, 2, 3, 100} {
 			one(c02Input{Ctrs: inv, Matchers: []c02Matcher{all}, Shape: "log", StartNS: 0, EndNS: 3 * sec, Limit: lim})
 			one(c02Input{Ctrs: inv, Matchers: []c02Matcher{all}, Shape: "log-nostep", StartNS: 0, EndNS: 3 * sec, Limit: lim})
@@ -622,7 +636,7 @@ func c02Run(r *vkit.Run) {
 		r.State(vkit.J(inv))
 	}
 	one(c02Input{Ctrs: invs[0], Matchers: nil, Shape: "log", StartNS: 0, EndNS: 3 * sec})
-	r.Note("bounds", fmt.Sprintf("%d container variants (3 names x 2 images x 2 states x 7 Docker-label sets) in %d inventories; %d single matchers (8 labels x 4 ops x 15 values incl. explicitly anchored alternations and case-insensitive literals) x 10 time ranges x 5 query shapes; matcher pairs on a 1/%d lattice; 15 (earlier selector, selector) pairs per inventory on a Querier that answered a query over a different inventory before", len(vars), len(invs), len(ms), pairStep))
+	r.Note("bounds", fmt.Sprintf("%d container variants (3 names x 2 images x 2 states x 8 Docker-label sets) in %d inventories; %d single matchers (8 labels x 4 ops x 15 values incl. explicitly anchored alternations and case-insensitive literals) x 10 time ranges x 5 query shapes; matcher pairs on a 1/%d lattice; 15 (earlier selector, selector) pairs per inventory on a Querier that answered a query over a different inventory before", len(vars), len(invs), len(ms), pairStep))
 }
 
 func c02Replay(r *vkit.Run, v vkit.Violation) *vkit.Violation {
